@@ -1,15 +1,25 @@
 """C15 running couplings solve their renormalisation group equations (inside one fixed-nf patch).
 
-kind "rge"    lattice of (order, em_running, nf, alpha_s(ref), alpha_em(ref), mu_ref) x 10 target scales
-              (incl. the reference scale itself, m_tau exactly and both sides of it):
+kind "rge"    lattice of (order, em_running, nf, alpha_s(ref), alpha_em(ref), mu_ref) x 16+ target scales
+              (the reference scale itself, six scales next to it (mu_ref^2 (1 +- 1e-10), (1 +- 1e-7), (1 +- 3e-4):
+              only a segment of zero length up to rounding, 1e-14, may be skipped), m_tau exactly and both sides of it):
                 * exact method == mpmath solution of the truncated coupled RGE (independent beta table)
                 * a(mu_ref) == alpha/(4 pi) for both methods
                 * the expanded method returns finite numbers wherever the reference is perturbative
                 * a_s decreases strictly along the sorted targets (both methods, perturbative range)
+                * next to the reference the change a_s(mu) - a_s(mu_ref) equals the change of the RGE solution
+                  (both methods: a frozen or snapped coupling is 100 % off)
+                * the wrappers a_s / a_em return the components of a
 kind "slope"  expanded vs (reference) exact under scaling of the couplings lambda = 2^-k at fixed
               ln(mu^2/mu_ref^2): the relative difference must vanish at least like lambda^(n+1)
               (n = QCD order; terms through a^(n+1) are fixed by beta_0..beta_(n-1)), and like lambda^2
-              when alpha_em runs ("beyond second order in the couplings").
+              when alpha_em runs ("beyond second order in the couplings").  Second oracle when alpha_em runs
+              (own signature .../third-order-terms): every coefficient of the working order (beta_0^2, beta_1,
+              the two mixed ones, the NLO QED one) enters a_s / a_em at third order in the couplings, both
+              methods contain them, so the relative difference must vanish like lambda^3.
+              The recorded defect of expanded_n3lo (relative lambda^4 instead of lambda^5) is pinned: exponent
+              >= 3.75 and lim (expanded - exact)/a0^5 == beta_3 (1 - 1/beta_0) ln(mu^2/mu_ref^2) (the -b_3 L term
+              carries beta_3/beta_0 where beta_3 belongs); anything else in that entry is .../beyond-known.
 """
 
 import itertools
@@ -23,7 +33,8 @@ TECHNIQUE = "complete input lattice vs mpmath RGE solutions (quadrature/Newton a
 LEVEL_TEXT = (
     "the exact and expanded coupling solutions are compared on the complete product lattice of orders, "
     "running modes, nf, reference values and target scales with independent high-precision solutions of the "
-    "truncated RGEs; order-of-accuracy of the expanded solutions is decided by measured scaling exponents"
+    "truncated RGEs; order-of-accuracy of the expanded solutions is decided by measured scaling exponents (the recorded "
+    "O(a^5) defect of the N3LO expanded solution is pinned to its leading coefficient)"
 )
 LEVEL_NOTE = (
     "decides the property on the lattice only; trusts the literature beta table (C20 cross-checks) and "
@@ -36,12 +47,31 @@ TARGETS = [1.5, 1.777, 1.9, 2.0, 3.0, 10.0, 50.0, 91.2, 200.0, 1000.0]
 ALPHAS_MAX = 0.5  # perturbative range for the comparisons
 ORDERS = [[n, m] for n in (1, 2, 3, 4) for m in (0, 1, 2)]
 TOL_EXACT = 1e-5
+TOL_EXACT_AEM = 1e-8  # alpha_em moves by ~5 % over the whole lattice: 1e-5 on the value would be 2e-4 of the change
 FLOOR = 1e-14
 NLAMBDA = 11
+# squared-scale factors next to the reference: Couplings.a may skip a segment only if it has zero length up to
+# rounding (np.isclose with rtol 1e-14); every one of these is an ordinary evolution
+NEAR_REF = [1 - 3e-4, 1 - 1e-7, 1 - 1e-10, 1 + 1e-10, 1 + 1e-7, 1 + 3e-4]
+TOL_NEAR_CHANGE = 0.1
+TOL_NEAR_CHANGE_N3LO_EXPANDED = 0.25  # the recorded defect of expanded_n3lo shows here as beta_3 (1 - 1/beta_0) a^3 / beta_0 <= 2 %
+WRAPPER_TARGET = 10.0
+PIN_N3LO_EXPONENT = 3.75
+PIN_N3LO_COEFF = 2e-2  # measured maximum 1.1e-3 (thorough), 6.9e-4 (quick)
+COUPLED_THIRD_ORDER = 3.0
 
 
 def _ulp(x):
     return math.ulp(x)
+
+
+def _targets(mu_ref):
+    """[(mu or None, mu2, near_factor or None)] sorted by mu2: the fixed targets, the reference itself, its neighbours."""
+    mus = sorted(set(TARGETS) | {mu_ref})
+    out = [(mu, mu**2, None) for mu in mus]
+    out += [(None, mu_ref**2 * f, f) for f in NEAR_REF]
+    out.sort(key=lambda t: t[1])
+    return out
 
 
 def _eval_rge(case):
@@ -58,13 +88,14 @@ def _eval_rge(case):
     res = Result()
     amax = ALPHAS_MAX / (4 * math.pi)
     ref = R.Reference(order, running, nf, alphas, alphaem, mu_ref, amax=amax)
-    swept = R.sweep(ref, [mu**2 for mu in TARGETS])
-    refs = {mu: swept[mu**2] for mu in TARGETS}
+    targets = _targets(mu_ref)
+    swept = R.sweep(ref, [t[1] for t in targets])
     where0 = f"order={order} em_running={running} nf={nf} alphas={alphas} alphaem={alphaem} mu_ref={mu_ref}"
     path = "alphaem_running" if running else "fixed_alphaem"
-    mx = {"max_rel_dev_exact_as": 0.0, "max_rel_dev_exact_aem": 0.0, "max_ulp_refpoint": 0.0}
+    mx = {"max_rel_dev_exact_as": 0.0, "max_rel_dev_exact_aem": 0.0, "max_ulp_refpoint": 0.0, "max_rel_dev_change_near_ref": 0.0}
     nperturb = 0
     nonfinite = 0
+    a0 = mp.mpf(alphas) / (4 * mp.pi)
     with warnings.catch_warnings():
         warnings.simplefilter("ignore")
         for method in ("exact", "expanded"):
@@ -74,10 +105,10 @@ def _eval_rge(case):
                 res.fail(f"Couplings/raises/{method}", f"{where0}: {type(e).__name__}: {e}")
                 continue
             seq = []
-            for mu in TARGETS:
-                where = f"{where0} method={method} mu={mu}"
+            for mu, mu2, near in targets:
+                where = f"{where0} method={method} " + (f"mu={mu}" if near is None else f"mu2=mu_ref^2*{near!r}")
                 try:
-                    got = np.array(c.a(mu**2, nf), dtype=float)
+                    got = np.array(c.a(mu2, nf), dtype=float)
                 except Exception as e:  # noqa
                     res.fail(f"Couplings.a/raises/{method}", f"{where}: {type(e).__name__}: {e}")
                     continue
@@ -90,7 +121,18 @@ def _eval_rge(case):
                             f"Couplings.a/ref-point/{method}",
                             f"{where}: a(mu_ref) = {got.tolist()} but alpha/(4 pi) = {want.tolist()}",
                         )
-                r = refs[mu]
+                if mu == WRAPPER_TARGET:
+                    # the two scalar wrappers must hand out the components of a (bit for bit)
+                    try:
+                        w_s, w_em = c.a_s(mu2, nf), c.a_em(mu2, nf)
+                    except Exception as e:  # noqa
+                        res.fail("Couplings.a_s,a_em/raises", f"{where}: {type(e).__name__}: {e}")
+                    else:
+                        for nm, w, g in (("a_s", w_s, got[0]), ("a_em", w_em, got[1])):
+                            w = float(w)
+                            if not (w == g or (math.isnan(w) and math.isnan(g))):
+                                res.fail(f"Couplings.{nm}/component", f"{where}: {nm}() = {w!r} but a() has {g!r} in that slot (a() = {got.tolist()})")
+                r = swept[mu2]
                 if r is None:
                     continue
                 nperturb += 1
@@ -112,18 +154,67 @@ def _eval_rge(case):
                                 f"{where}: exact a_{'s' if i == 0 else 'em'} = {got[i]!r}, RGE solution "
                                 f"{mp.nstr(r[i], 15)} (relative deviation {dev:.3e} > {TOL_EXACT})",
                             )
-                seq.append((mu, float(got[0])))
+                        elif i == 1 and not dev <= TOL_EXACT_AEM:
+                            res.fail(
+                                f"Couplings.compute_exact_{path}/a_em/tight",
+                                f"{where}: exact a_em = {got[i]!r}, RGE solution {mp.nstr(r[i], 15)} "
+                                f"(relative deviation {dev:.3e} > {TOL_EXACT_AEM})",
+                            )
+                if near is not None:
+                    # next to the reference (not equal to it): the coupling must have moved as the RGE says
+                    want_change = r[0] - a0
+                    dev = abs(float(((mp.mpf(float(got[0])) - a0) - want_change) / want_change))
+                    n3lo_exp = method == "expanded" and order[0] == 4
+                    key = "max_rel_dev_change_near_ref" + ("_expanded_n3lo" if n3lo_exp else "")
+                    mx[key] = max(mx.get(key, 0.0), dev)
+                    tol_near = TOL_NEAR_CHANGE_N3LO_EXPANDED if n3lo_exp else TOL_NEAR_CHANGE
+                    if not dev <= tol_near:
+                        res.fail(
+                            f"Couplings.a/near-reference/{method}",
+                            f"{where}: a_s - a_s(mu_ref) = {float(mp.mpf(float(got[0])) - a0)!r} but the RGE solution "
+                            f"moves by {float(want_change)!r} (relative deviation {dev:.3e} > {tol_near}): "
+                            "only a segment of zero length up to rounding (1e-14) may be skipped",
+                        )
+                seq.append((mu if near is None else f"mu_ref*sqrt({near!r})", float(got[0])))
             # monotone decrease with the scale in the perturbative range
-            for (m0, a0), (m1, a1) in zip(seq, seq[1:]):
-                if not a1 < a0:
+            for (m0, a0_), (m1, a1) in zip(seq, seq[1:]):
+                if not a1 < a0_:
                     res.fail(
                         f"Couplings.a/monotone/{method}/running={running}",
-                        f"{where0} method={method}: a_s({m0}) = {a0!r} <= a_s({m1}) = {a1!r}",
+                        f"{where0} method={method}: a_s({m0}) = {a0_!r} <= a_s({m1}) = {a1!r}",
                     )
     res.info = dict(mx, perturbative_points=nperturb)
     res.nontrivial = nperturb > 2
     res.outcome = f"rge/{path}/nonfinite={nonfinite > 0}"
     return res
+
+
+def _pin_n3lo(order, nf, alphaem, mu_ref, mu2, rs, d5, exponent):
+    """Model of the recorded defect of couplings.expanded_n3lo: the term -b_3 L a^5 carries beta_3/beta_0 instead of
+    beta_3 (normalised coefficients fed into a formula written for unnormalised ones), everything else at a^5 is right:
+        lim_{a0->0} (expanded - exact) / a0^5 = beta_3 (1 - 1/beta_0) ln(mu^2/mu_ref^2),   exponent 4.
+    (beta_0 includes a_em beta_qcd(2,1) when the QED order is >= 1: alpha_em is fixed and not scaled here.)"""
+    import mpmath as mp
+
+    from vf.ref import c20_tables as tab
+
+    b0 = tab.beta_qcd((2, 0), nf)
+    if order[1] >= 1:
+        b0 = b0 + mp.mpf(alphaem) / (4 * mp.pi) * tab.beta_qcd((2, 1), nf)
+    model = float(tab.beta_qcd((5, 0), nf) * (1 - 1 / b0) * mp.log(mp.mpf(mu2) / mp.mpf(mu_ref) ** 2))
+    # Richardson pair (k, k+1) at the smallest couplings whose residual is still >= 1e-11 (rounding <= 1e-5 of it)
+    pair = None
+    for k in range(len(rs) - 2, 0, -1):
+        if all(rs[j] is not None and rs[j][0] >= 1e-11 and j in d5 for j in (k, k + 1)):
+            pair = k
+            break
+    out = {"model": model, "exponent": exponent, "pair": pair, "measured": None, "dev": None, "matches": False}
+    if pair is None:
+        return out
+    measured = 2 * d5[pair + 1] - d5[pair]
+    dev = abs(measured / model - 1)
+    out.update(measured=measured, dev=dev, matches=bool(exponent >= PIN_N3LO_EXPONENT and dev <= PIN_N3LO_COEFF))
+    return out
 
 
 def _eval_slope(case):
@@ -141,6 +232,7 @@ def _eval_slope(case):
     res = Result()
     mu2 = mu_ref**2 * math.exp(L)
     rs = []
+    d5 = {}
     where0 = f"order={order} em_running={running} nf={nf} alphas={alphas} alphaem={alphaem} mu_ref={mu_ref} L={L}"
     with warnings.catch_warnings():
         warnings.simplefilter("ignore")
@@ -162,10 +254,14 @@ def _eval_slope(case):
                 rs.append(None)
                 continue
             rs.append(tuple(abs(float(mp.mpf(float(got[i])) / ref[i] - 1)) for i in (0, 1)))
+            # signed difference in units of a0^5 (used to pin the recorded defect of expanded_n3lo)
+            a0k = mp.mpf(als) / (4 * mp.pi)
+            d5[k] = float((mp.mpf(float(got[0])) - ref[0]) / a0k**5)
     n = order[0]
     demand = 2.0 if coupled else float(n + 1)
     thr = demand - 0.25
     info = {}
+    pinned_n3lo = {}
     trivial = True
     inconclusive = False
     for i, nm in ((0, "a_s"), (1, "a_em")):
@@ -196,16 +292,50 @@ def _eval_slope(case):
         # limit from below after a sign change of the difference)
         if last[-1] >= thr:
             info[f"min_exponent_margin_{nm}"] = last[-1] - demand
+        shown = (
+            f"{where0}: relative difference expanded-exact for lambda=2^-k: "
+            f"{[None if r is None else float('%.3e' % r[i]) for r in rs]}; local exponents "
+            f"{[round(e, 2) for _, e in exps]}; the asymptotic pair is {[round(e, 2) for e in last]}"
+        )
         if last[-1] < thr:
-            res.fail(
-                f"expanded_vs_exact/running/{nm}" if coupled else f"expanded_vs_exact/qcd={n}/{nm}",
-                f"{where0}: relative difference expanded-exact for lambda=2^-k: "
-                f"{[None if r is None else float('%.3e' % r[i]) for r in rs]}; local exponents "
-                f"{[round(e, 2) for _, e in exps]}; the asymptotic pair is {[round(e, 2) for e in last]}, its last member must be >= {thr} "
-                f"(difference must be of relative order lambda^{demand:g})",
-            )
-    margins = [v for k, v in info.items() if k.startswith("min_exponent_margin") and v is not None]
+            sig = f"expanded_vs_exact/running/{nm}" if coupled else f"expanded_vs_exact/qcd={n}/{nm}"
+            msg = f"{shown}, its last member must be >= {thr} (difference must be of relative order lambda^{demand:g})"
+            if not coupled and n == 4 and i == 0:
+                # recorded defect of expanded_n3lo: the failure keeps its listed signature only while it IS that defect
+                pin = _pin_n3lo(order, nf, alphaem, mu_ref, mu2, rs, d5, last[-1])
+                pinned_n3lo.update(pin)
+                if not pin["matches"]:
+                    sig += "/beyond-known"
+                    msg += (
+                        f"; NOT the recorded defect alone: that one has exponent >= {PIN_N3LO_EXPONENT} and "
+                        f"lim (expanded-exact)/a0^5 = beta_3 (1 - 1/beta_0) L = {pin['model']!r}, measured {pin['measured']!r} "
+                        f"(Richardson pair k={pin['pair']}, relative deviation {pin['dev']!r} > {PIN_N3LO_COEFF})"
+                    )
+            res.fail(sig, msg)
+        elif coupled:
+            # every coefficient of the working order enters at third order in the couplings and both methods
+            # carry it: the relative difference must vanish like lambda^3
+            thr3 = COUPLED_THIRD_ORDER - 0.25
+            if last[-1] >= thr3:
+                info[f"min_exponent_margin3_{nm}"] = last[-1] - COUPLED_THIRD_ORDER
+            else:
+                res.fail(
+                    f"expanded_vs_exact/running/{nm}/third-order-terms",
+                    f"{shown}, its last member must be >= {thr3}: the terms of third order in the couplings (generated by "
+                    "beta_0^2, beta_1, the mixed coefficients beta_qcd(2,1) / beta_qed(1,2) and beta_qed(0,3), all part of the "
+                    "working order) must agree, leaving a relative difference of order lambda^3",
+                )
+    margins = [v for k, v in info.items() if k.startswith("min_exponent_margin_") and v is not None]
+    margins3 = [v for k, v in info.items() if k.startswith("min_exponent_margin3_") and v is not None]
     res.info = {"max_exponent_shortfall_of_passing_cases_vs_integer_demand": max([-m for m in margins], default=-99.0), "residuals": [None if r is None else list(r) for r in rs]}
+    if margins3:
+        res.info["max_exponent_shortfall_coupled_vs_third_order"] = max(-m for m in margins3)
+    if pinned_n3lo:
+        # known-failing cases stay out of the head-room maxima above; what is recorded is how well they match the model
+        res.info["pinned_n3lo"] = pinned_n3lo
+        if pinned_n3lo["matches"]:
+            res.info["max_rel_dev_pinned_n3lo_coefficient"] = pinned_n3lo["dev"]
+            res.info["max_exponent_shortfall_pinned_n3lo_vs_4"] = 4.0 - pinned_n3lo["exponent"]
     res.nontrivial = not trivial
     res.outcome = f"slope/{'coupled' if coupled else 'qcd=%d' % n}/{'inconclusive' if inconclusive else 'trivial' if trivial else 'measured'}"
     return res
@@ -231,6 +361,9 @@ def run(ctx):
             aems = [0.0075]
         else:
             aems = [0.001, 0.0075, 0.01] if thorough else [0.0075]
+        if coupled and nf in (3, 4):
+            # a reference below m_tau: the lepton-number split is entered with 2 leptons first, 3 afterwards
+            pts = pts + [(0.35, 1.6)]
         for (a, r), e in itertools.product(pts, aems):
             cases.append({"kind": "rge", "order": order, "running": running, "nf": nf, "alphas": a, "alphaem": e, "mu_ref": r})
     for order, running in itertools.product(ORDERS, [False, True]):
@@ -244,16 +377,25 @@ def run(ctx):
         "rge: complete product of 12 orders (QCD 1-4 x QED 0-2) x em_running on/off x nf 3-6 x alpha_s(ref) x mu_ref x "
         "alpha_em (quick: (alpha_s, mu_ref) in {(0.118,91.2),(0.35,2)}, alpha_em 0.0075; thorough: alpha_s in "
         "{0.08,0.118,0.2,0.35}, mu_ref in {2,10,91.2,200}, alpha_em in {0.001,0.0075,0.01}; the coupled-running "
-        "configurations use alpha_s in {0.118,0.35} x mu_ref in {2,91.2}), each case evaluating exact and expanded method at 10 target "
-        "scales (1.5 ... 1000 GeV, incl. mu_ref, m_tau exactly, 1.9 GeV just above it); slope: 12 orders x running x nf x "
+        "configurations use alpha_s in {0.118,0.35} x mu_ref in {2,91.2}, and for nf 3,4 also the reference (0.35, 1.6 GeV) "
+        "below m_tau), each case evaluating exact and expanded method at 16-17 target "
+        "scales (1.5 ... 1000 GeV, incl. mu_ref, m_tau exactly, 1.9 GeV just above it, and mu_ref^2 x (1 -+ 1e-10), (1 -+ 1e-7), (1 -+ 3e-4) "
+        "next to the reference), a_s()/a_em() wrappers at 10 GeV; slope: 12 orders x running x nf x "
         "alpha_s x ln(mu^2/mu_ref^2) in {-1,0.5,3}, 11 scalings lambda=2^-k each. non-trivial = at least 3 perturbative "
         "targets (rge) / two measured exponents (slope)"
     )
     ctx.assumptions += [
         "truncated coupled RGE as defined in vf/ref/c15_rge.py (QCD terms (j,k) with j<=n+1,k<=m; QED terms j<=n,k<=m+1; known coefficients only)",
         "comparisons restricted to targets where the reference has alpha_s <= 0.5 (perturbative range)",
-        "exact method: 1e-5 relative (the implementation asks its ODE solver for rtol 1e-6)",
+        "exact method: 1e-5 relative (the implementation asks its ODE solver for rtol 1e-6); a_em: 1e-8 relative",
+        "targets next to the reference (relative distance 1e-10, 1e-7, 3e-4; Couplings.a skips only segments of zero length up to 1e-14): "
+        "the change of a_s must equal the change of the RGE solution to 10 % (25 % for the N3LO expanded "
+        "solution, whose recorded O(a^5) defect is a 2 % error of the slope at alpha_s = 0.35)",
         "expanded vs exact: fixed-order counting at fixed ln(mu^2/mu_ref^2): relative difference O(lambda^(n+1)); "
         "O(lambda^2) when alpha_em runs; the pair of consecutive local exponents at the smallest couplings that agree to 0.15 is the asymptotic window; its last member must be >= demand-0.25, residuals below 1e-14 skipped, 11 scalings",
+        "running alpha_em, second oracle (signature .../third-order-terms): 'beyond the working order' read as: the terms every included "
+        "coefficient generates at its leading (third) order in the couplings agree, i.e. relative difference O(lambda^3), exponent >= 2.75",
+        "recorded defect expanded_vs_exact/qcd=4/a_s pinned to: exponent >= 3.75 and lim (expanded-exact)/a0^5 = beta_3 (1 - 1/beta_0) ln(mu^2/mu_ref^2) "
+        "to 2 % (Richardson pair of scalings); any other failure of these cases has the signature expanded_vs_exact/qcd=4/a_s/beyond-known",
         "number of leptons 2 for mu^2 <= m_tau^2 = 1.777^2, else 3",
     ]
